@@ -208,7 +208,67 @@ def copy_probe(s):
     return True
 
 
+def oom_sweep(i, s, nmax):
+    """the same quoter call with only the (n+1)-th allocation request failing, n < nmax;
+    then one undisturbed call.  Needs _testcapi (a CPython test helper)."""
+    import sys
+    import _testcapi
+    from impl_worker import QNAMES
+    from yarl import _quoters
+    q = getattr(_quoters, QNAMES[i])
+    hook = sys.unraisablehook
+    sys.unraisablehook = lambda u: None
+    out = []
+    try:
+        for n in range(nmax):
+            _testcapi.set_nomemory(n, n + 1)
+            try:
+                try:
+                    r = q(s)
+                finally:
+                    _testcapi.remove_mem_hooks()
+            except BaseException as e:  # noqa: B902
+                r = _exn(e)
+            out.append(r)
+    finally:
+        sys.unraisablehook = hook
+    out.append(q(s))
+    return out
+
+
+def oom_url_sweep(s, nmax):
+    """URL("http://h/").with_path(s) / with_query / with_fragment under allocation faults:
+    each call raises MemoryError or returns the undisturbed result; later calls are right"""
+    import sys
+    import _testcapi
+    base = URL("http://h/")
+    funcs = [lambda: str(base.with_path(s)), lambda: str(base.with_fragment(s)), lambda: str(base.with_query(s))]
+    hook = sys.unraisablehook
+    sys.unraisablehook = lambda u: None
+    res = []
+    try:
+        for f in funcs:
+            out = []
+            for n in range(nmax):
+                _testcapi.set_nomemory(n, n + 1)
+                try:
+                    try:
+                        r = f()
+                    finally:
+                        _testcapi.remove_mem_hooks()
+                except BaseException as e:  # noqa: B902
+                    r = _exn(e)
+                out.append(r)
+            out.append(f())
+            res.append(out)
+    finally:
+        sys.unraisablehook = hook
+    return res
+
+
 def register(fn):
+    fn(oom_sweep)
+    fn(oom_url_sweep)
     fn(copy_probe)
     fn(not_equal_non_url)
     fn(observe)
